@@ -3,7 +3,7 @@
 use serde_json::{Value, json};
 
 use crate::fmt06::{self};
-use crate::history::{StepKind, StepReport, World};
+use crate::history::{StepKind, StepReport, World, random_opts};
 use crate::oracle::restore_and_compare;
 use crate::report::{Run, Tier, panic_site};
 use crate::rng::{Rng, fnv};
@@ -117,7 +117,28 @@ fn one_history(run: &Run, case: u64) {
     let mut restores = 0u64;
     run.eval();
     for step in 0..n_steps {
-        let rep = w.random_step(&mut rng);
+        // now and then the caller stops a backup (its change callback fails part-way)
+        let rep = if !w.sources.is_empty() && rng.chance(1, 12) {
+            let after = 1 + rng.below(w.snap.len().max(2) as u64 - 1) as usize;
+            let r = w.backup_stopped_by_caller(random_opts(&mut rng), after);
+            run.count("backups_stopped_by_their_caller", 1);
+            if r.backup.as_ref().map(|b| b.ok()).unwrap_or(false) {
+                // the callback was never reached that often (unchanged entries are not announced)
+                w.sources.insert(r.new_band.unwrap_or(0), w.snap.clone());
+            } else if let Some(b) = r.new_band {
+                if w.complete_bands().contains(&b) {
+                    run.violation(
+                        "backup-stopped-by-caller-left-a-version-marked-complete",
+                        format!("{}: returned {} and b{b:04} has a tail", r.desc, r.backup.as_ref().unwrap().describe()),
+                        json!({"case": case, "step": step, "history": descs}),
+                    );
+                    return;
+                }
+            }
+            r
+        } else {
+            w.random_step(&mut rng)
+        };
         descs.push(rep.desc.clone());
         kinds.insert(format!("{:?}", rep.kind));
         run.count(&format!("steps_{:?}", rep.kind), 1);
@@ -266,7 +287,7 @@ pub fn run(tier: Tier, replay: Option<Value>) -> i32 {
         super::alongside(&run, "the many-hunks history", || many_hunks(&run), || run.par_cases(n, super::threads(), |case| one_history(&run, case)));
     }
     run.finish(
-        "one history (backup, change, backup, gc, delete oldest) on a tree of 10 040 files with one entry per index hunk; then random histories (6-25 steps) over {1-4 tree mutations (add/modify/touch/chmod/remove/rename/file<->dir/symlinks/resize across the small-file cap/content reappearing from removed files) with strictly increasing logical-clock mtimes; backup with random (hunk, block, cap); backup killed before a uniformly chosen storage operation of its measured trace; delete of a random subset (incl. dry run); gc}. After every step every version that has a tail and was not deleted is restored by id and via LatestClosed and compared with the snapshot of the source taken when its backup ran; refused and dry-run deletes must leave the archive byte-identical. Non-trivial = history reached >= 2 complete versions and >= 3 step kinds; distinct by step descriptions.",
+        "one history (backup, change, backup, gc, delete oldest) on a tree of 10 040 files with one entry per index hunk; then random histories (6-25 steps) over {1-4 tree mutations (add/modify/touch/chmod/remove/rename/file<->dir/symlinks/resize across the small-file cap/content reappearing from removed files) with strictly increasing logical-clock mtimes; backup with random (hunk, block, cap); backup killed before a uniformly chosen storage operation of its measured trace; backup stopped by its caller (the change callback fails at a random entry: the version must not count as complete); delete of a random subset (incl. dry run); gc}. After every step every version that has a tail and was not deleted is restored by id and via LatestClosed and compared with the snapshot of the source taken when its backup ran; refused and dry-run deletes must leave the archive byte-identical. Non-trivial = history reached >= 2 complete versions and >= 3 step kinds; distinct by step descriptions.",
         &["logical clock guarantees changed files have a new mtime (precondition in the statement)", "stop-the-world crash simulated by refusing every storage operation from operation k on"],
         None,
         &[("restores_compared", 50), ("interrupted_backups", 2), ("deletes_done", 2), ("histories_completed", 4)],
